@@ -1569,9 +1569,11 @@ func (w *envelopingWriter) Close() error {
 		}
 		// We were buffering in order to measure size and create envelope,
 		// so do that now.
+		// (An empty body is not a compressed message: zero bytes are not a
+		// valid stream of any compression.)
 		env := envelope{
-			compressed: w.rw.op.client.respCompression != nil,
-			length:     uint32(buf.Len()), //nolint:gosec // Length is validated above.
+			compressed: w.rw.op.client.respCompression != nil && length > 0,
+			length:     uint32(length), //nolint:gosec // Length is validated above.
 		}
 		envBytes := w.rw.op.clientEnveloper.encodeEnvelope(env)
 		if _, err := w.w.Write(envBytes[:]); err != nil {
@@ -1635,7 +1637,9 @@ func (w *envelopingWriter) maybeInit() {
 		return
 	}
 	var env envelope
-	env.compressed = w.rw.op.client.respCompression != nil
+	// (An empty body is not a compressed message: zero bytes are not a valid
+	// stream of any compression.)
+	env.compressed = w.rw.op.client.respCompression != nil && w.rw.contentLen > 0
 	env.length = uint32(w.rw.contentLen) //nolint:gosec // Length is validated above.
 	envBytes := w.rw.op.clientEnveloper.encodeEnvelope(env)
 	if _, err := w.w.Write(envBytes[:]); err != nil {
